@@ -1,6 +1,7 @@
 package main
 
 import (
+	"sync/atomic"
 	"strings"
 	"fmt"
 	"go/constant"
@@ -11,6 +12,9 @@ import (
 )
 
 var profSteps map[*ssa.Function]int
+
+// memPressure is raised by a watchdog when the process heap exceeds its budget: running paths end as inconclusive
+var memPressure atomic.Bool
 
 func (vm *VM) constVal(c *ssa.Const) Value {
 	t := c.Type()
@@ -288,6 +292,9 @@ func (vm *VM) run(fr *frame, b *ssa.BasicBlock) Value {
 			}
 		}
 		vm.steps += len(instrs)
+		if memPressure.Load() {
+			panic(pathEnd{"budget", "process memory budget exceeded"})
+		}
 		if profSteps != nil {
 			profSteps[fr.fn] += len(instrs)
 		}
